@@ -64,6 +64,19 @@ Theorem parse_show : forall e : expr, wf prec_tab e -> parse prec_tab (show e) =
 Proof. exact (parse_show_lemma prec_tab). Qed.
 Print Assumptions parse_show.
 
+(* hence the token rendering determines the stored tree *)
+Theorem show_injective : forall e1 e2 : expr, wf prec_tab e1 -> wf prec_tab e2 -> show e1 = show e2 -> e1 = e2.
+Proof. exact (show_injective_lemma prec_tab). Qed.
+Print Assumptions show_injective.
+
+(* both halves of C08 in one statement: what the library reports for the stored array of a well-formed,
+   renderable tree is the character rendering of a token sequence that reads back as that tree *)
+Theorem formula_denotes_tree : forall (fmap : N -> option (list N)) (e : expr),
+  renderable e = true -> wf prec_tab e ->
+  exists ts, formula_text fmap (compile e) = Ok (text fmap ts) /\ parse prec_tab ts = Some e.
+Proof. intros fmap e. exact (formula_denotes_tree_lemma fmap prec_tab e). Qed.
+Print Assumptions formula_denotes_tree.
+
 (* the same without reference to the fuel the executable parser happens to use *)
 Theorem show_parse : forall e : expr, wf prec_tab e ->
   exists f0, forall f, f0 <= f -> parse_ex prec_tab f 0 (show e) = Some (e, []).
